@@ -7,5 +7,6 @@ CONSTANTS
     CreateUnderLock = TRUE
     MayFail = TRUE
     MayForget = TRUE
+    MayPanic = TRUE
 INVARIANTS TypeOK MutexOK OwnerOK Exclusive IdleDisjoint Conservation ReuseOK DataIntact
 POSTCONDITION Accepted
